@@ -391,7 +391,7 @@ def rule_c19_r2(model: Model) -> RuleResult:
                 r.ok()
             else:
                 r.fail(fq, f"{o} -> {kws[bad].get(o)}", f.loc(calls[bad]), f"the option {o} is accepted but not handed to {target}: the output ignores it")
-        r.sample({fq: sorted(kws[0])})
+        r.sample({fq: sorted(str(k_) for k_ in kws[0])})
     # into_data(obj, ty, custom=custom) inside the io writers; ty=self.__class__ in the methods
     for fq in ('pane.io.write_json', 'pane.io.write_yaml'):
         f = model.func(fq)
